@@ -18,7 +18,7 @@ REQUIRED_COUNTERS = ["argument_shadow_checks", "polynomial_cases"]
 
 
 def plan(tier, seed):
-    return [{"shard": i, "reps": 12 if tier == "quick" else 400} for i in range(16)]
+    return [{"shard": i, "reps": 12 if tier == "quick" else 6000} for i in range(16)]
 
 
 def check_bin(ctx, binImgs, rng):
